@@ -417,4 +417,114 @@ theorem removeRedundant_two (p q : Part) (h1 : partContains p q = false) (h2 : p
   · simp [removeRedundantExons, sortBySizeDesc, insertBySizeDesc, hlen, h1]
   · simp [removeRedundantExons, sortBySizeDesc, insertBySizeDesc, hlen, h2]
 
+/-! ### deepening round: single-exon frameshift, `Feature.start/end` -/
+
+/-- a frameshifted single-exon location is a single-exon location -/
+theorem frameshift_simple_shape (p : Part) (c : Int) (undo : Bool) (l' : Loc)
+    (h : frameshift (.simple p) c undo = .ok l') : ∃ q, l' = .simple q := by
+  by_cases hc : 1 ≤ c ∧ c ≤ 3
+  · rw [frameshift_eq _ c undo hc] at h
+    generalize (if (isRev (Loc.simple p) != undo) = true then -(c - 1) else c - 1) = off at h
+    by_cases h0 : off = 0
+    · subst h0
+      simp [adjustByOffset] at h
+      exact ⟨p, h.symm⟩
+    · by_cases hr : -2 ≤ off ∧ off ≤ 2
+      · rw [adjust_simple p off h0 hr] at h
+        cases hq : adjustSingle p off with
+        | ok q => rw [hq] at h; simp [Res.bind] at h; exact ⟨q, h.symm⟩
+        | valueError => rw [hq] at h; simp [Res.bind] at h
+        | assertion => rw [hq] at h; simp [Res.bind] at h
+      · have : (decide (-2 ≤ off) && decide (off ≤ 2)) = false := by
+          simp only [Bool.and_eq_false_iff, decide_eq_false_iff_not]; omega
+        simp [adjustByOffset, h0, this] at h
+  · rw [frameshift_refuses _ c undo hc] at h; cases h
+
+theorem upRange_head? (lo : Int) (n : Nat) (h : 0 < n) : (upRange lo n).head? = some lo := by
+  cases n with
+  | zero => omega
+  | succ n => rfl
+
+theorem downRange_head? (hi : Int) (n : Nat) (h : 0 < n) : (downRange hi n).head? = some (hi - 1) := by
+  cases n with
+  | zero => omega
+  | succ n => rfl
+
+theorem upRange_getLast? (lo : Int) (n : Nat) (h : 0 < n) : (upRange lo n).getLast? = some (lo + n - 1) := by
+  induction n generalizing lo with
+  | zero => omega
+  | succ n ih =>
+    cases n with
+    | zero => simp [upRange]
+    | succ m =>
+      have := ih (lo + 1) (by omega)
+      simp only [upRange] at this ⊢
+      rw [List.getLast?_cons_cons, this]
+      congr 1; push_cast; omega
+
+theorem downRange_getLast? (hi : Int) (n : Nat) (h : 0 < n) : (downRange hi n).getLast? = some (hi - n) := by
+  induction n generalizing hi with
+  | zero => omega
+  | succ n ih =>
+    cases n with
+    | zero => simp [downRange]
+    | succ m =>
+      have := ih (hi - 1) (by omega)
+      simp only [downRange] at this ⊢
+      rw [List.getLast?_cons_cons, this]
+      congr 1; push_cast; omega
+
+/-- `Feature.start` / `Feature.end` are the gene's ends in transcription order: on a non-reverse strand the first
+    transcribed base is `start` and the last is `end - 1`; on the reverse strand the first is `end - 1`, the last `start` -/
+theorem feature_ends (l : Loc) (hwf : geneWF l = true) :
+    (isRev l = false → (bases l).head? = some (featureStart l) ∧ (bases l).getLast? = some (featureEnd l - 1)) ∧
+    (isRev l = true → (bases l).head? = some (featureEnd l - 1) ∧ (bases l).getLast? = some (featureStart l)) := by
+  obtain ⟨hne, hparts⟩ := (geneWF_iff l).mp hwf
+  obtain ⟨p, rest, hpr⟩ : ∃ p rest, l.parts = p :: rest := by
+    cases h : l.parts with
+    | nil => exact absurd h hne
+    | cons a b => exact ⟨a, b, rfl⟩
+  obtain ⟨ys, z, hyz⟩ : ∃ ys z, l.parts = ys ++ [z] := by
+    rcases List.eq_nil_or_concat l.parts with h | ⟨ys, a, h⟩
+    · exact absurd h hne
+    · exact ⟨ys, a, by simpa using h⟩
+  have hp := hparts p (by rw [hpr]; simp)
+  have hz := hparts z (by rw [hyz]; simp)
+  have hhead : (bases l).head? = (partBases p).head? := by
+    have hne' : partBases p ≠ [] := by
+      intro h0; have := partBases_length p; rw [h0] at this; simp at this; omega
+    simp only [bases, hpr, List.flatMap_cons]
+    cases hpb : partBases p with
+    | nil => exact absurd hpb hne'
+    | cons a b => rfl
+  have hlast : (bases l).getLast? = (partBases z).getLast? := by
+    have hne' : partBases z ≠ [] := by
+      intro h0; have := partBases_length z; rw [h0] at this; simp at this; omega
+    simp only [bases, hyz, List.flatMap_append, List.flatMap_cons, List.flatMap_nil, List.append_nil]
+    rw [List.getLast?_append]
+    cases hg : (partBases z).getLast? with
+    | none => exact absurd (List.getLast?_eq_none_iff.mp hg) hne'
+    | some v => rfl
+  have hgl : l.parts.getLast? = some z := by rw [hyz]; simp
+  have hhd : l.parts.head? = some p := by rw [hpr]; rfl
+  constructor
+  · intro hr
+    have hpr' : (p.strand == Strand.rev) = false := by rw [hp.2]; simpa [isRev] using hr
+    have hzr' : (z.strand == Strand.rev) = false := by rw [hz.2]; simpa [isRev] using hr
+    refine ⟨?_, ?_⟩
+    · rw [hhead]; simp only [partBases, hpr', Bool.false_eq_true, if_false, featureStart, hr, hhd]
+      rw [upRange_head? _ _ (by omega)]; rfl
+    · rw [hlast]; simp only [partBases, hzr', Bool.false_eq_true, if_false, featureEnd, hr, hgl]
+      rw [upRange_getLast? _ _ (by omega)]
+      simp only [Option.map_some, Option.getD_some]; congr 1; omega
+  · intro hr
+    have hpr' : (p.strand == Strand.rev) = true := by rw [hp.2]; simpa [isRev] using hr
+    have hzr' : (z.strand == Strand.rev) = true := by rw [hz.2]; simpa [isRev] using hr
+    refine ⟨?_, ?_⟩
+    · rw [hhead]; simp only [partBases, hpr', if_true, featureEnd, hr, hhd]
+      rw [downRange_head? _ _ (by omega)]; rfl
+    · rw [hlast]; simp only [partBases, hzr', if_true, featureStart, hr, hgl]
+      rw [downRange_getLast? _ _ (by omega)]
+      simp only [Option.map_some, Option.getD_some]; congr 1; omega
+
 end ASV.ProtDna
